@@ -319,6 +319,14 @@ func memoDependencies(r *an.Run, rule string) {
 						eq = true
 					}
 				}
+				// or looked up in a set of names (membership in a string-keyed map is equality with a member)
+				if lk, ok := in.(*ssa.Lookup); ok {
+					if mt, isMap := lk.X.Type().Underlying().(*types.Map); isMap {
+						if bt, ok := mt.Key().Underlying().(*types.Basic); ok && bt.Kind() == types.String && len(membershipValues(lk)) > 0 {
+							eq = true
+						}
+					}
+				}
 			}
 		}
 	}
